@@ -10,6 +10,7 @@
    The capacity Go's append chooses is a parameter cp: every theorem holds for EVERY growth policy. *)
 From P2 Require Import Base.Prelude Heap.ListHeap Heap.ListHeapProofs Heap.FuncState Heap.FuncStateProofs.
 From P2 Require Import Sem.Num Sem.Syntax Sem.Ops Sem.Lib Sem.Ref Sem.Gen Sem.Sim Heap.FuncStackProofs.
+From P2 Require Lib.Stream Lib.Iterate Lib.IterateProofs.
 
 (* an evaluation is a sequence of heap steps whose outcome is determined by (F, args, j) and the CONTENT of the
    constants - never by their representation (itemsPresent / len / cap / which array): started in ANY heap h2
@@ -55,6 +56,27 @@ Theorem C10_failing_eval_changes_nothing : forall R a mk (k : option nat -> scri
   poisoned (icontent h a) = true ->
   match alloc_eval a mk k with Do f => f h = (h, k None) | Done _ => False end.
 Proof. exact failing_eval_changes_nothing_lemma. Qed.
+
+(* traversal state is per ITERATION, not per list value (Lib/Stream.v pipelines: map, accept, combine, number,
+   iir, compact, skip, top over numbers / literals / +; consumers first, single, size, present, indexWhere, ~,
+   reduce): a lazy list value - a constant shared by all evaluations, a let-bound value used by two consumers -
+   traversed after any number of earlier traversals, complete or stopped early, gives what a fresh traversal gives *)
+Theorem C10_iterate_twice_same : forall fuel p before t,
+  last (Iterate.iterate fuel p (before ++ [t])) ([], Stream.OutOfFuel, O) = Stream.run fuel t p.
+Proof. exact IterateProofs.iterate_twice_same_lemma. Qed.
+
+(* the executable semantics that THREADS the stage states from one traversal into the next coincides with it
+   exactly when no stage keeps anything ... *)
+Theorem C10_iterate_state_not_kept : forall fuel p ts,
+  Iterate.iterate_shared (fun _ => false) fuel p ts = Iterate.iterate fuel p ts.
+Proof. exact IterateProofs.iterate_shared_none_lemma. Qed.
+
+(* ... and discriminates: with compact's lastPublished hoisted into the list value, [3,1,3].compact((a,b)->a=b)
+   traversed by first() and then summed gives 4 instead of 7 *)
+Theorem C10_iterate_shared_state_discriminates : exists p t1 t2,
+  map (fun r => snd (fst r)) (Iterate.iterate 20 p [t1; t2]) = [Stream.OInt 3; Stream.OInt 7] /\
+  map (fun r => snd (fst r)) (Iterate.iterate_shared Iterate.is_compact 20 p [t1; t2]) = [Stream.OInt 3; Stream.OInt 4].
+Proof. exact IterateProofs.iterate_shared_refuted_lemma. Qed.
 
 (* the stack leg (C01's simulation): residue of earlier activity on a stack storage - anything above and
    below the frame holding the arguments - is irrelevant; an evaluation started on such a storage and one on
@@ -111,4 +133,7 @@ Print Assumptions C10_reachable_states_ok.
 Print Assumptions C10_generated_function_meets_spec.
 Print Assumptions C10_generate_does_not_disturb.
 Print Assumptions C10_failing_eval_changes_nothing.
+Print Assumptions C10_iterate_twice_same.
+Print Assumptions C10_iterate_state_not_kept.
+Print Assumptions C10_iterate_shared_state_discriminates.
 Print Assumptions C10_stack_residue_irrelevant.
